@@ -34,28 +34,167 @@ class FakeBptk(object):
         self.session_state = st
 
 
+def _sec(x):
+    return x.s if isinstance(x, (SymDelta, SymInstant)) else x
+
+
+class SymDelta(object):
+    """datetime.timedelta over a symbolic number of seconds (the attributes the real class offers)"""
+
+    def __init__(self, s):
+        self.s = s
+        self._parts = None
+
+    def total_seconds(self):
+        return self.s
+
+    def _split(self):
+        # timedelta normal form: s = days*86400 + seconds + microseconds/1e6, 0 <= seconds < 86400, 0 <= microseconds < 1e6
+        if self._parts is None:
+            if not S.is_sym(self.s):
+                import datetime as _d
+                td = _d.timedelta(seconds=self.s)
+                self._parts = (td.days, td.seconds, td.microseconds)
+            else:
+                d, x, u = S.fresh("days", True), S.fresh("secs", True), S.fresh("frac")
+                S.assume(self.s == d * 86400.0 + x + u)
+                S.assume(x >= 0.0)
+                S.assume(x <= 86399.0)
+                S.assume(u >= 0.0)
+                S.assume(u < 1.0)
+                self._parts = (d, x, u * 1000000.0)
+        return self._parts
+
+    days = property(lambda self: self._split()[0])
+    seconds = property(lambda self: self._split()[1])
+    microseconds = property(lambda self: self._split()[2])
+
+    def __add__(self, o):
+        if isinstance(o, SymInstant):
+            return SymInstant(self.s + o.s)
+        if isinstance(o, SymDelta):
+            return SymDelta(self.s + o.s)
+        return NotImplemented
+    __radd__ = __add__
+
+    def __sub__(self, o):
+        return SymDelta(self.s - o.s) if isinstance(o, SymDelta) else NotImplemented
+
+    def __neg__(self):
+        return SymDelta(-self.s)
+
+    def __abs__(self):
+        return SymDelta(abs(self.s))
+
+    def __mul__(self, k):
+        return SymDelta(self.s * k)
+    __rmul__ = __mul__
+
+    def __truediv__(self, o):
+        return self.s / o.s if isinstance(o, SymDelta) else SymDelta(self.s / o)
+
+    def __bool__(self):
+        return bool(self.s != 0.0)
+
+    def __lt__(self, o): return self.s < o.s
+    def __le__(self, o): return self.s <= o.s
+    def __gt__(self, o): return self.s > o.s
+    def __ge__(self, o): return self.s >= o.s
+    def __eq__(self, o): return isinstance(o, SymDelta) and self.s == o.s
+    def __ne__(self, o): return not isinstance(o, SymDelta) or self.s != o.s
+    __hash__ = object.__hash__
+
+    def __repr__(self):
+        return "delta(%r s)" % (self.s,)
+
+
+class SymInstant(object):
+    """datetime.datetime as seconds since an arbitrary origin"""
+
+    def __init__(self, s):
+        self.s = s
+
+    def __add__(self, o):
+        return SymInstant(self.s + o.s) if isinstance(o, SymDelta) else NotImplemented
+    __radd__ = __add__
+
+    def __sub__(self, o):
+        if isinstance(o, SymDelta):
+            return SymInstant(self.s - o.s)
+        if isinstance(o, SymInstant):
+            return SymDelta(self.s - o.s)
+        return NotImplemented
+
+    def timestamp(self):
+        return self.s
+
+    def isoformat(self, *a, **k):
+        return "instant"
+
+    def __bool__(self):
+        return True
+
+    def __lt__(self, o): return self.s < o.s
+    def __le__(self, o): return self.s <= o.s
+    def __gt__(self, o): return self.s > o.s
+    def __ge__(self, o): return self.s >= o.s
+    def __eq__(self, o): return isinstance(o, SymInstant) and self.s == o.s
+    def __ne__(self, o): return not isinstance(o, SymInstant) or self.s != o.s
+    __hash__ = object.__hash__
+
+    def __repr__(self):
+        return "instant(%r s)" % (self.s,)
+
+
 class Clock(object):
-    def __init__(self):
-        self.now_value = 0.0
+    """mode 'sym': the stub module hands out SymInstant/SymDelta; mode 'float': the REAL datetime module with only
+    datetime.now() replaced, so a replay exercises the real timedelta arithmetic"""
+
+    def __init__(self, mode="sym"):
+        self.mode = mode
+        self.now_value = None
+
+    def origin(self):
+        if self.mode == "sym":
+            return SymInstant(1000.0)
+        import datetime as _d
+        return _d.datetime(2024, 1, 1, 12, 0, 0)
+
+    def delta(self, unit, amount):
+        if self.mode == "sym":
+            return SymDelta(amount * UNITS[unit])
+        import datetime as _d
+        return _d.timedelta(**{unit: amount})
 
     def install(self, stubs):
         clock = self
+        import datetime as _real
+        if self.mode == "sym":
+            class _dt(object):
+                @staticmethod
+                def now(tz=None):
+                    return clock.now_value
 
-        class _dt(object):
-            @staticmethod
-            def now():
-                return clock.now_value
+            class _mod(object):
+                datetime = _dt
 
-        class _mod(object):
-            datetime = _dt
+                @staticmethod
+                def timedelta(**kw):
+                    tot = 0.0
+                    for u, f in UNITS.items():
+                        if u in kw and not (isinstance(kw[u], (int, float)) and kw[u] == 0):
+                            tot = tot + kw[u] * f
+                    return SymDelta(tot)
+        else:
+            class _dt(_real.datetime):
+                @classmethod
+                def now(cls, tz=None):
+                    return clock.now_value
 
-            @staticmethod
-            def timedelta(**kw):
-                tot = 0.0
-                for u, f in UNITS.items():
-                    if u in kw and not (isinstance(kw[u], (int, float)) and kw[u] == 0):
-                        tot = tot + kw[u] * f
-                return tot
+            class _mod(object):
+                datetime = _dt
+                timedelta = _real.timedelta
+                date, time, timezone = _real.date, _real.time, _real.timezone
         stubs.set("BPTK_Py.server.bptkServer", "datetime", _mod)
 
 
@@ -115,7 +254,7 @@ def run_timeline(tl, mode, env=None):
     unit0, unit1, events = tl
     env = env or {}
     stubs = harness.Stubs()
-    clock = Clock()
+    clock = Clock(mode)
     clock.install(stubs)
     try:
         def val(name, default):
@@ -131,7 +270,7 @@ def run_timeline(tl, mode, env=None):
         app._bearer_token = None
         ref = {}          # index -> dict(last, tau, alive, uid, bptk, externalised)
         out = []
-        now = 1000.0          # instants are truthy like real datetimes (the sweep tests `if last_call_time:`)
+        now = clock.origin()
         amounts = {0: val("a0", 2.0), 1: val("a1", 3.0)}
         pos = []
         for i in (0, 1):
@@ -148,7 +287,7 @@ def run_timeline(tl, mode, env=None):
             sweep(t)
             before = set(im._instances.keys())
             uid = im.create_instance(**{unit: amounts[i]})
-            ref[i] = {"last": t, "tau": amounts[i] * UNITS[unit], "alive": True, "uid": uid, "destroyed": 0,
+            ref[i] = {"last": t, "tau": clock.delta(unit, amounts[i]), "alive": True, "uid": uid, "destroyed": 0,
                       "bptk": im._instances[uid]["instance"]}
             if i == 0:
                 # instance 0's state is externalised (as the run-step handlers do after every step)
@@ -160,7 +299,7 @@ def run_timeline(tl, mode, env=None):
             d = val("d%d" % n, 1.0)
             if mode == "sym":
                 pos.append(T.cmp("ge", S.term_of(d), T.ZERO))
-            now = now + d
+            now = now + clock.delta("seconds", d)
             clock.now_value = now
             obs, exp = {}, {}
             if kind == "create":
@@ -232,6 +371,17 @@ def first_mismatch(res):
     return None
 
 
+def _model(pc, timeout_s):
+    """a model of the path; whole-number gaps and timeouts are preferred (exact in datetime.timedelta, which
+    rounds to microseconds), any model otherwise"""
+    names = sorted(set(n for t in pc for n in T.free_vars(t) if not n.startswith(("int$", "aux$"))))
+    whole = [T.cmp("eq", T.var(n), T.var("int$whole$" + n)) for n in names]
+    r, m = solve.check(list(pc) + whole, timeout_s)
+    if r == "sat":
+        return r, m
+    return solve.check(list(pc), timeout_s)
+
+
 def check_timeline(tl, timeout_s):
     holder = {}
 
@@ -254,11 +404,11 @@ def check_timeline(tl, timeout_s):
         if p.exc is not None:
             return "unknown", "harness: %r" % (p.exc,), len(paths)
         if p.out[0] == "exc":
-            r, m = solve.check(list(p.pc), timeout_s)
+            r, m = _model(p.pc, timeout_s)
             return "violated", dict(solve.complete_model(m, *p.pc) if m else {}, _what="raised %r" % (p.out[1],)), len(paths)
         mm = first_mismatch(p.out[1])
         if mm:
-            r, m = solve.check(list(p.pc), timeout_s)
+            r, m = _model(p.pc, timeout_s)
             if r != "sat":
                 continue
             info = solve.complete_model(m, *p.pc)
@@ -352,7 +502,7 @@ def run(tier):
         env = {k: float(v) for k, v in info.items() if isinstance(v, (Fraction, int, float)) and not isinstance(v, bool)}
         rep.candidate(sig, {"tl": [tl[0], tl[1], [list(e) for e in tl[2]]], "env": env}, "timeline %s: %s" % (tl, info.get("_what")))
     rep.assume("clock stub: all now() calls within one event return the event's instant; instants non-decreasing (gaps >= 0 symbolic reals)",
-               "timeouts: one unit per instance (every unit covered across timelines), amount > 0 symbolic; timedelta stub = seconds",
+               "timeouts: one unit per instance (every unit covered across timelines), amount > 0 symbolic; datetime/timedelta stub: instants and durations over symbolic real seconds with the attributes of the real classes (days/seconds/microseconds through integer auxiliaries; microsecond rounding outside); replays run on the real datetime module with only now() replaced",
                "bptk factory is a stub recording destroy(); adapter stub holds instance 0's state",
                "an access to an expired but not yet swept instance refreshes it (the statement fixes the fate only after a sweep)")
     rep.coverage.update({"states": len(tls), "transitions": max(1, paths_total), "traces_validated_against_impl": len(seen),
